@@ -21,7 +21,18 @@ vars == <<gen, ws, tail, tags, lens, muts, last>>
 
 Vals == [k \in 1..Len(tags) |-> ValueOf(k, lens[k])]
 
-Init == /\ gen \in {"raw", "build"}
+\* header-shaped generator: count word nt in {3, 4}, then nt-1 offsets, nt tags, up to 4 value words
+OffAlphabet3 == { <<0, 0>>, <<1, 0>>, <<2, 0>>, <<3, 0>>, <<4, 0>>, <<5, 0>>, <<8, 0>>, <<12, 0>>, <<16, 0>>,
+                  <<20, 0>>, <<Big, 0>>, <<Big + 3, 0>> }
+OffAlphabet4 == { <<0, 0>>, <<2, 0>>, <<4, 0>>, <<8, 0>>, <<12, 0>>, <<Big, 0>> }
+HdrAlphabet ==
+    IF ws = <<>> THEN { <<3, 0>>, <<4, 0>> }
+    ELSE LET nt == V(ws[1]) pos == Len(ws) + 1 IN
+         IF pos <= nt THEN (IF nt = 3 THEN OffAlphabet3 ELSE OffAlphabet4)
+         ELSE IF pos <= 2 * nt THEN (IF nt = 3 THEN { StdTagW(1), StdTagW(4), StdTagW(18) } ELSE { StdTagW(pos - nt) })
+         ELSE IF pos <= 2 * nt + 4 THEN { <<0, 0>> } ELSE {}
+
+Init == /\ gen \in {"raw", "build", "hdr"}
         /\ ws = <<>> /\ tail = 0 /\ tags = <<>> /\ lens = <<>> /\ muts = 0
         /\ last = [op |-> "init"]
 
@@ -29,6 +40,8 @@ Init == /\ gen \in {"raw", "build"}
 AppendWord(w) == /\ gen = "raw" /\ tail = 0 /\ Len(ws) < MaxWords
                  /\ ws' = Append(ws, w) /\ last' = [op |-> "word"]
                  /\ UNCHANGED <<gen, tail, tags, lens, muts>>
+HdrWord(w) == /\ gen = "hdr" /\ ws' = Append(ws, w) /\ last' = [op |-> "hdr"]
+              /\ UNCHANGED <<gen, tail, tags, lens, muts>>
 SetTail(k) == /\ gen = "raw" /\ tail = 0 /\ Len(ws) <= 2
               /\ tail' = k /\ last' = [op |-> "tail"]
               /\ UNCHANGED <<gen, ws, tags, lens, muts>>
@@ -62,6 +75,7 @@ Mutate == /\ gen = "build" /\ ws # <<>> /\ muts < MaxMut /\ Len(tags) <= MaxFiel
           /\ UNCHANGED <<gen, tail, tags, lens>>
 
 Next == \/ \E w \in Alphabet : AppendWord(w)
+        \/ (gen = "hdr" /\ \E w \in HdrAlphabet : HdrWord(w))
         \/ \E k \in 1..3 : SetTail(k)
         \/ \E r \in BuildTags, n \in BuildLens : AddField(r, n)
         \/ AddAll \/ DoEncode \/ Mutate
@@ -91,7 +105,7 @@ RoundTrip == (gen = "build" /\ last.op = "encode") => D = Ok(tags, lens)
 \* the builder never holds tags out of order
 BuilderOrdered == \A k \in 1..(Len(tags) - 1) : tags[k] < tags[k + 1]
 
-Emit == (ws' # <<>> \/ tail' # 0 \/ gen' = "raw") =>
+Emit == ((ws' # <<>> \/ tail' # 0 \/ gen' = "raw") /\ (gen' = "hdr" => Len(ws') >= 2 * V(ws'[1]))) =>
     PrintT(ToJson([suite |-> "wire", gen |-> gen', ws |-> ws', tail |-> tail',
                    tags |-> tags', lens |-> lens', op |-> last'.op,
                    exp |-> Decode(ws', tail')]))
